@@ -535,4 +535,8 @@ def run(F, rep):
     import recursion as _recw
     _recw.rule_walkers(F, rep, 'C02.W1', ['buildMaps', 'printComponent'], 2, 'collecting and printing the components')
 
+    # ------------------------------------------------------------------ sibling cursors
+    from engines import rule_cursor_loops
+    rule_cursor_loops(F, rep, 'C02.K1', lambda g: g.file.endswith(('/parser.cpp', '/xmlutils.cpp', '/xmlnode.cpp')), 25, 'the parser and its XML helpers')
+
 
